@@ -234,10 +234,33 @@ def g_prims( ctx ):
             res.ok( asrc, f, '%s consumes no input itself' % qn, nontrivial=False )
     # octets_base / words_base sub-machines
     ob = psrc.get( 'octets_base.__init__' )
-    if pfind( ob, 'octets_state( name=octets_name, terminal=True, alphabet=octets_alphabet, encoder=octets_encoder, typecode=octets_typecode, extension=octets_extension )' ):
-        res.ok( psrc, ob, 'octets_base sub-machine = one terminal octets_state' )
-    else:
+    # the sub-machine handed on as initial=: one call of the octets_state parameter, terminal, every octets_<k>
+    # parameter handed to the keyword <k> (through a local, if the code names it first)
+    params = { a.arg for a in ob.args.args }
+    local = {}
+    for st_ in ob.body:
+        if isinstance( st_, ast.Assign ) and len( st_.targets ) == 1 and isinstance( st_.targets[0], ast.Name ):
+            local[st_.targets[0].id] = st_.value
+    def through( e ):
+        n = 0
+        while isinstance( e, ast.Name ) and e.id in local and e.id not in params and n < 4:
+            e = local[e.id]; n += 1
+        return e
+    inits = [ k.value for c in ast.walk( ob ) if isinstance( c, ast.Call ) and isinstance( c.func, ast.Attribute ) and c.func.attr == '__init__'
+              for k in c.keywords if k.arg == 'initial' ]
+    sub = through( inits[0] ) if len( inits ) == 1 else None
+    if not ( isinstance( sub, ast.Call ) and isinstance( sub.func, ast.Name ) and sub.func.id in params ):
         res.bad( psrc, ob, 'octets_base.__init__', 'sub-machine must be a single terminal octets_state instance (one symbol per repeat)' )
+    else:
+        skw = { k.arg: through( k.value ) for k in sub.keywords }
+        wrong = [ k for k in ( 'name', 'alphabet', 'encoder', 'typecode', 'extension' )
+                  if not ( isinstance( skw.get( k ), ast.Name ) and skw[k].id == 'octets_' + k ) ]
+        if try_fold( skw.get( 'terminal' )) is not True if 'terminal' in skw else True:
+            res.bad( psrc, sub, 'octets_base.__init__', 'sub-machine must be a single terminal octets_state instance (one symbol per repeat)' )
+        elif wrong:
+            res.bad( psrc, sub, 'octets_base.__init__ ' + ','.join( wrong ), 'the octets_<k> parameters configure the sub-machine state: each is handed on as <k>' )
+        else:
+            res.ok( psrc, ob, 'octets_base sub-machine = one terminal octets_state' )
     wb = psrc.get( 'words_base.__init__' )
     w2 = [ c for c in ast.walk( wb ) if is_call_to( c, 'words_state' ) ]
     terminal2 = [ c for c in w2 if any( k.arg == 'terminal' and try_fold( k.value ) is True for k in c.keywords ) ]
